@@ -26,8 +26,13 @@ FLAGS = [E.SCRIPT_VERIFY_P2SH, E.SCRIPT_VERIFY_NULLDUMMY, E.SCRIPT_VERIFY_CLEANS
          E.SCRIPT_VERIFY_DISCOURAGE_UPGRADABLE_NOPS]
 
 
+# bits 4..9: the flags the module defines but the interpreter does not implement (they must change
+# nothing: the MODEL looks at the low four bits only)
+MORE_FLAGS = [getattr(E, 'SCRIPT_VERIFY_' + n, None) for n in ('STRICTENC', 'DERSIG', 'LOW_S', 'SIGPUSHONLY', 'MINIMALDATA', 'CHECKLOCKTIMEVERIFY')]
+
+
 def flagset(n):
-    return set(f for k, f in enumerate(FLAGS) if n >> k & 1)
+    return set(f for k, f in enumerate(FLAGS + MORE_FLAGS) if n >> k & 1 and f is not None)
 
 
 def make_tx(mode):
